@@ -38,11 +38,11 @@ pub const LONG_RUN_ONE_IN: u64 = 120;
 /// which profiles decide which property, with their share of the run budget
 pub fn profiles(prop: &str) -> Vec<(Box<dyn Profile>, u64)> {
     match prop {
-        "C02" => vec![(Box::new(profile::f1::Dispatch), 3), (Box::new(profile::f5::CustomChain { prop: "C02" }), 1)],
+        "C02" => vec![(Box::new(profile::f1::Dispatch), 3), (Box::new(profile::f5::CustomChain { prop: "C02", spelled_empty: false }), 1)],
         "C03" => vec![(Box::new(profile::f1::WireFaults), 1)],
-        "C04" => vec![(Box::new(profile::f1::Misdeliver), 1)],
+        "C04" => vec![(Box::new(profile::f1::Misdeliver { custom: false }), 3), (Box::new(profile::f1::Misdeliver { custom: true }), 1)],
         "C10" => vec![(Box::new(profile::remotes::Remotes), 1)],
-        "C11" => vec![(Box::new(profile::f5::CustomChain { prop: "C11" }), 1)],
+        "C11" => vec![(Box::new(profile::f5::CustomChain { prop: "C11", spelled_empty: false }), 4), (Box::new(profile::f5::CustomChain { prop: "C11", spelled_empty: true }), 1)],
         "C20" => vec![(Box::new(profile::remotes::StoredHandles), 1)],
         "C12" => vec![(Box::new(profile::twin::ProxyTwin { custom_chain: false }), 3), (Box::new(profile::twin::ProxyTwin { custom_chain: true }), 1)],
         "C06" => vec![(Box::new(profile::f2::EntryPointTwin), 3), (Box::new(profile::f3::ReplyTwin), 1)],
